@@ -487,6 +487,18 @@ def d4_views(ctx, obs):
     sig = m.args.args[1].arg if m else 'sigma'
     ok = len(r) == 1 and unparse(r[0].value) in ('self.is_zero() or np.abs(self.value) <= %s * self._dvalue' % sig, 'self.is_zero() or np.abs(self.value) <= %s * self.dvalue' % sig)
     ctx.check(rule, 'obs.py:Obs.is_zero_within_error', ok, '|value| <= sigma * dvalue', 'returns %s' % [unparse(x.value) for x in r])
+    # the exact-zero shortcut of that test: is_zero() with its own default window.  The window is part of the public behaviour (everything
+    # below it counts as zero whatever its error is); it is the documented 1e-10, not the 1e-8 numpy would use
+    mz = meths.get('is_zero')
+    if mz is not None:
+        dflt = [const(d_) for d_ in mz.args.defaults]
+        ctx.check(rule, 'obs.py:Obs.is_zero#default-window', dflt == [1e-10], 'is_zero() treats |x| <= 1e-10 as zero (public default)',
+                  'the default window of is_zero() is %s: is_zero_within_error() reports every value below it as zero, however small its error is' % dflt, obs.loc(mz))
+        calls = [c for c in walk(mz) if isinstance(c, ast.Call) and call_name(c) in ('isclose', 'allclose')]
+        okc = bool(calls) and all(len(c.args) >= 4 and unparse(c.args[3]) == mz.args.args[1].arg and const(c.args[2]) == 1e-14 or
+                                  (kwarg(c, 'atol') is not None and unparse(kwarg(c, 'atol')) == mz.args.args[1].arg) for c in calls)
+        ctx.check(rule, 'obs.py:Obs.is_zero#window-used', okc, 'value, fluctuations and covariance part are compared with the caller\'s atol (rtol 1e-14)',
+                  'closeness tests of is_zero: %s' % [unparse(c)[:60] for c in calls], obs.loc(mz))
     cm = ctx.repo.mod('correlators')
     f = cm.func('Corr.plottable')
     xs, ys, es = find_def(f, 'x_list'), find_def(f, 'y_list'), find_def(f, 'y_err_list')
